@@ -116,7 +116,8 @@ def zero_length_on_barline(tracks):
         start += step
     for t in tracks:
         timed, _ = rel_timed(t)
-        if any(on == off and on in starts for (_, _, on, off, _) in notes_of(timed)):
+        # tick 0 is a bar start but no cut point: a zero-length note there is not torn apart (audit round 2)
+        if any(on == off and on > 0 and on in starts for (_, _, on, off, _) in notes_of(timed)):
             return True
     return False
 
